@@ -213,3 +213,22 @@ PROPS['C11']['level'] = 'other'
 PROPS['C11']['explanation'] = ('E1: frame obligations of every function on the fit path -- nothing reachable from the fitter state or the source is modified -- from which independence of history '
                                'follows for ALL histories (for the state the contracts describe). E2: paired runs for filter/model permutations, brightness scaling, histories incl. the resolved-model mask. '
                                'Level "other": the history half is proved, the permutation/scaling half is bounded.')
+
+MONO = 'sedfitter.convolve.monochromatic.convolve_model_dir_monochromatic'
+PROPS['C16'] = dict(
+    level='other',
+    e1=[MONO, CFX + 'sort_to_match', SEDC + 'read'],
+    e2=('rtc.pipe_props', 'run_c16'),
+    assumptions=COMMON + [T_EVENT, D_ARGSORT, D_FITS, 'dep: np.searchsorted (left partition of a sorted array; sortedness is an obligation)',
+                          'assumed: parfile.read / load_parameter_table / glob / os (package directory I/O); every SED file of a per-file package is tabulated on one common wavelength grid '
+                          '(the monochromatic mode indexes every SED with the first file\'s grid) and satisfies the domain conditions of SED.read (positive, strictly monotone axis)',
+                          'output objects built by the list comprehension over range(chunk_size) are kept abstract: their constructor arguments and the bodies of ConvolvedFluxes.write are not '
+                          'verified here (FITS I/O; bounded run), sort_to_match is verified separately',
+                          'the window must hold at least one tabulated wavelength and max_ram must allow one wavelength per chunk (property quantifier); an empty window makes range() raise',
+                          'the nearest-wavelength slice of Models._read_version_2 for cube packages is decided by the bounded run only'],
+    explanation='E1 (every n_wav, n_models, n_ap, every max_ram / chunk size, every window): the real text of convolve_model_dir_monochromatic is executed symbolically. Proved: [jlo, jhi] is exactly '
+                'the set of wavelength indices inside the window; chunk starts are jlo, jlo+chunk, ... and the chunks tile the window (each chunk inside it, not longer than the list of output '
+                'objects, the next one starting right after); in chunk position j every field of output object j (central wavelength, model name, flux and error of row im, per aperture) is taken '
+                'at wavelength index j+jmin of the SED just read, with no index out of range; object j is sorted to the parameter-table order and written exactly once to file number j+jmin+1, '
+                'and that name is entered in row j+jmin of the returned table (other rows untouched). That these per-iteration facts compose to "exactly one file per in-window wavelength, '
+                'independent of chunking" is the range-tiling argument of T-LOOP-EVENT. E2: EXHAUSTIVE chunk sizes x windows for n_wav <= 5/8 through real files, plus the cube slice.')
